@@ -633,8 +633,13 @@ def mofstr(value, indent=MOF_INDENT, maxline=MAX_MOF_LINE, line_pos=0,
         # Split the string and output the next part
         split_pos = value.rfind(' ', 0, avl_len)
         if split_pos < 0:
-            # We have to split within a word
+            # We have to split within a word, but not within an escape sequence
             split_pos = avl_len - 1
+            for m in re.finditer(r'\\(x[0-9A-Fa-f]{4}|.)', value):
+                if m.end() > split_pos + 1:
+                    if m.start() <= split_pos:
+                        split_pos = (m.start() or m.end()) - 1
+                    break
         part_value = value[0:split_pos + 1]
         value = value[split_pos + 1:]
         mof.append(quote_char)
